@@ -66,6 +66,17 @@ func VerifDir() string {
 	return "/verif"
 }
 
+func stableClasses(vs []Violation) string {
+	var cs []string
+	for _, v := range vs {
+		if !strings.HasPrefix(v.Class, "race:") {
+			cs = append(cs, v.Class)
+		}
+	}
+	sort.Strings(cs)
+	return strings.Join(cs, ";")
+}
+
 func unknownViolations(f *Findings, vs []Violation) (unk []Violation, known []Violation) {
 	for i := range vs {
 		v := vs[i]
@@ -127,9 +138,11 @@ func RunWorker(c Check, tier string, seed uint64, worker, of int, b Budget) int 
 		if i < 2 {
 			res2 := c.Run(tape.Replay(tp.Rec()), RunOpt{Tier: tier})
 			sum.SelfTestRuns++
-			if res2.Sig != res.Sig || len(res2.Violations) != len(res.Violations) || res2.Evaluations != res.Evaluations {
-				sum.Fatal = fmt.Sprintf("determinism self-test failed on run %d (seed %d): sig %x vs %x, violations %d vs %d, evals %d vs %d",
-					idx, rs, res.Sig, res2.Sig, len(res.Violations), len(res2.Violations), res.Evaluations, res2.Evaluations)
+			// (reports of the race detector are excluded: it can miss a race in one
+			// of two identical executions, see DESIGN 3.4)
+			if res2.Sig != res.Sig || stableClasses(res2.Violations) != stableClasses(res.Violations) || res2.Evaluations != res.Evaluations {
+				sum.Fatal = fmt.Sprintf("determinism self-test failed on run %d (seed %d): sig %x vs %x, violations %q vs %q, evals %d vs %d",
+					idx, rs, res.Sig, res2.Sig, stableClasses(res.Violations), stableClasses(res2.Violations), res.Evaluations, res2.Evaluations)
 				break
 			}
 		}
@@ -165,12 +178,18 @@ func RunWorker(c Check, tier string, seed uint64, worker, of int, b Budget) int 
 			seenClass[v.Class] = true
 			orig := tp.Rec()
 			class := v.Class
+			tries := 1
+			if strings.HasPrefix(class, "race:") {
+				tries = 3
+			}
 			fails := func(cand []uint64) bool {
-				r := c.Run(tape.Replay(cand), RunOpt{Tier: tier})
-				u, _ := unknownViolations(findings, r.Violations)
-				for _, x := range u {
-					if x.Class == class {
-						return true
+				for k := 0; k < tries; k++ {
+					r := c.Run(tape.Replay(cand), RunOpt{Tier: tier})
+					u, _ := unknownViolations(findings, r.Violations)
+					for _, x := range u {
+						if x.Class == class {
+							return true
+						}
 					}
 				}
 				return false
@@ -487,6 +506,23 @@ func RunReplay(c Check, rf *ReplayFile) int {
 	if res.Fatal != "" {
 		fmt.Println("FATAL", res.Fatal)
 		return 2
+	}
+	if strings.HasPrefix(rf.Violation.Class, "race:") {
+		// the schedule replays exactly; the race detector itself may miss the pair
+		// in a given execution (DESIGN 3.4), so the same tape is executed again a
+		// few times before giving up.
+		for try := 0; try < 8; try++ {
+			hit := false
+			for _, v := range res.Violations {
+				if v.Class == rf.Violation.Class {
+					hit = true
+				}
+			}
+			if hit {
+				break
+			}
+			res = c.Run(tape.Replay(rf.Tape), RunOpt{Tier: rf.Tier, WantSample: true, Replay: true})
+		}
 	}
 	if res.Sample != nil {
 		b, _ := json.MarshalIndent(res.Sample, "", " ")
